@@ -16,8 +16,8 @@ Definition f64_is_inf (x : F64.t) : bool :=
 Definition f64_one : F64.t := F64.of_Z 1%Z.
 
 (* (i as f32) / (scale as f32) + (wo as f32), widened (exactly) to f64 *)
-Definition f64_unscale (i : Z) (scale : F64.t) (wo : Z) : F64.t :=
-  F64.of_f32 (F32.add (F32.div (F32.of_Z i) (F64.to_f32 scale)) (F32.of_Z wo)).
+Definition f64_unscale (i : Z) (scale : F64.t) (wo : F64.t) : F64.t :=
+  F64.of_f32 (F32.add (F32.div (F32.of_Z i) (F64.to_f32 scale)) (F64.to_f32 wo)).
 
 Definition F64Ops : NumOps F64.t := {|
   n_zero := F64.zero;
@@ -62,7 +62,7 @@ Definition QOps : NumOps Q := {|
   n_is_inf := fun _ => false;
   n_cmp := fun a b => Some (a ?= b);
   n_min1 := Qmin1;
-  n_unscale := fun i scale wo => inject_Z i / scale + inject_Z wo
+  n_unscale := fun i scale wo => inject_Z i / scale + wo
 |}.
 
 (* exact value of a finite binary float (0 for NaN and infinities) *)
